@@ -3,9 +3,12 @@ package node
 import (
 	"errors"
 	"fmt"
+	"io"
 	"os"
 	"runtime"
 	"strings"
+	"sync"
+	"sync/atomic"
 	"syscall"
 	"testing"
 	"time"
@@ -32,9 +35,10 @@ func TestC12CloseRightAfterInitialize(t *testing.T) {
 		ncustom := rapid.IntRange(1, 4).Draw(t, "custom_transports")
 		servers := rapid.Bool().Draw(t, "tcp_and_udp_server_too")
 		consume := rapid.Bool().Draw(t, "events_consumed")
+		serialToo := rapid.IntRange(0, 2).Draw(t, "serial_endpoint_too") > 0
 		// what the transports' Close reports (it closes in every case): nothing, EINTR, EINTR inside a PathError, another error
 		closeReports := rapid.IntRange(0, 3).Draw(t, "close_reports")
-		desc0 := fmt.Sprintf("customTransports=%d servers=%v eventsConsumed=%v closeReports=%d drawn: processors=%d yields=%d", ncustom, servers, consume, closeReports, procsDrawn, yieldsDrawn)
+		desc0 := fmt.Sprintf("customTransports=%d servers=%v eventsConsumed=%v serialEndpointToo=%v closeReports=%d drawn: processors=%d yields=%d", ncustom, servers, consume, serialToo, closeReports, procsDrawn, yieldsDrawn)
 		// every case: ten rounds on one processor without a yield, ten on all processors, ten as drawn
 		for round := 0; round < 30; round++ {
 			procs, yields := procsDrawn, yieldsDrawn
@@ -63,6 +67,21 @@ func TestC12CloseRightAfterInitialize(t *testing.T) {
 					pipes[i].FailCloseOnce(errors.New("final flush failed"))
 				}
 				endpoints = append(endpoints, gomavlib.EndpointCustom{ReadWriteCloser: pipes[i]})
+			}
+			// a serial endpoint as well (hooked opener): every open of the device is noted with its time - a node that
+			// has been closed does not open devices any more
+			var openTimes []time.Time
+			var openMu sync.Mutex
+			if serialToo {
+				dev := fmt.Sprintf("/dev/ttyC12E_%d", atomic.AddInt64(&serialCounter, 1))
+				serialDevices.Store(dev, func() (io.ReadWriteCloser, error) {
+					openMu.Lock()
+					openTimes = append(openTimes, time.Now())
+					openMu.Unlock()
+					return sim.NewPipe(), nil
+				})
+				defer serialDevices.Delete(dev)
+				endpoints = append(endpoints, gomavlib.EndpointSerial{Device: dev, Baud: 57600})
 			}
 			var ports []int
 			if servers {
@@ -93,6 +112,7 @@ func TestC12CloseRightAfterInitialize(t *testing.T) {
 			if _, err := closeNode(n, bound); err != nil {
 				fail("%v", err)
 			}
+			closedAt := time.Now()
 			for i, p := range pipes {
 				if c := p.CloseCount(); c != 1 {
 					fail("Close was called right after Initialize and has returned: custom transport %d has been closed %d times, want exactly once", i, c)
@@ -117,6 +137,18 @@ func TestC12CloseRightAfterInitialize(t *testing.T) {
 						fail("Events() was not closed within %v after Close returned", bound)
 					}
 				}
+			}
+			if serialToo {
+				time.Sleep(2 * time.Millisecond)
+				runtime.Gosched()
+				openMu.Lock()
+				for _, ot := range openTimes {
+					if ot.After(closedAt) {
+						openMu.Unlock()
+						fail("the serial device was opened %v after Close had returned: something the node started was still running", ot.Sub(closedAt))
+					}
+				}
+				openMu.Unlock()
 			}
 			if left := sim.WaitNoLibGoroutines(3 * time.Second); len(left) > 0 {
 				fail("%d library goroutine(s) remain after Close:\n%s", len(left), strings.Join(left, "\n\n"))
